@@ -51,6 +51,13 @@ def gen_case(rng):
     if kind == "dict" and len(labels) >= 2 and not quad and rng.random() < 0.2:
         # a long key that denotes a short monomial: x*x*y = x*y (boolean), z*z*w = w (spin)
         terms[(labels[0], labels[0], labels[1])] = rng.choice([-2, 1, 3])
+    if kind == "dict" and rng.random() < 0.25:
+        # integer labels that are not 0..n-1: negative ones, gaps
+        ints = rng.sample([-3, -2, -1, 0, 1, 2, 3], len(labels))
+        ren = dict(zip([repr(l) for l in labels], ints))
+        terms = {tuple(ren[repr(x)] for x in k): v for k, v in terms.items()}
+        labels = ints
+        pool = ints + [7, 8, 9]
     zero_label = None
     if kind == "dict" and rng.random() < 0.2:
         # a plain dict may hold zero coefficients: the label is mentioned, so it is one of the model's variables
@@ -119,6 +126,19 @@ def run_case(case, cid):
         with warnings.catch_warnings():
             warnings.simplefilter("ignore")
             model.add_constraint_eq_zero({(labels[0],): 1}, lam=0.5)       # a weak penalty: the unconstrained minimum may violate it
+    if case["kind"] != "dict" and not case["fn"] and cid % 3 == 0 and len(dict.keys(model)) >= 2:
+        # history: the method answered before, then a term left the model through a plain dict method
+        try:
+            with warnings.catch_warnings():
+                warnings.simplefilter("ignore")
+                model.solve_bruteforce(case["all"])
+        except Exception:      # noqa
+            pass
+        k_ = sorted(dict.keys(model), key=repr)[cid % len(dict.keys(model))]
+        if cid % 2:
+            del model[k_]
+        else:
+            model.pop(k_)
     if case.get("stale"):
         # a term over one more label comes and goes (the caches keep the label), and a key arrives unsorted
         extra = 7 if matrix else "__stale"
@@ -230,6 +250,24 @@ def run(tier, out, replay=None):
         if replay:
             cases = [cases[json.load(open(replay))["record"]["case_index"]]]
         recs = [run_case(c, i) for i, c in enumerate(cases)]
+        if not replay:
+            # the inherited Problem.solve_bruteforce (problems/_problem_parentclass.py): it must return a solution for every
+            # instance, also when a coefficient cancels while the QUBO is built (WHICH solution is C10's business).  The
+            # observation is recorded in the shape of a constant model, so that NoRaise is the clause that speaks.
+            from qubovert import problems
+            for pi, (cc, S, b) in enumerate([([2, 1], [[1, 0]], [1]), ([1, 2, 0], [[0, 1, 0], [1, 0, 1]], [1, 1]), ([1, 1], [[1, 1]], [1]),
+                                             ([0, 2], [[0, 1]], [1]), ([4], [[1]], [1])]):
+                prec = {"id": len(recs), "spin": False, "kind": "dict", "fn": "BILP.solve_bruteforce", "model": [], "K": [], "den": 1,
+                        "valid_kind": "true", "valid_arg": [], "all": False, "obj": [0], "sols": [[[], [], True]], "raised": "",
+                        "unchanged": True, "second_same": True}
+                try:
+                    sol = problems.BILP(cc, S, b).solve_bruteforce()
+                    if len(sol) != len(cc):
+                        prec["raised"] = "BadLength: solution of length %d for %d variables" % (len(sol), len(cc))
+                except Exception as e:      # noqa
+                    prec["raised"] = type(e).__name__ + ": " + str(e)[:80]
+                recs.append(prec)
+                cases.append({"problem": "BILP", "c": cc, "S": S, "b": b})
         out.add("traces_validated_against_impl", len(recs))
         out.sample(describe(cases[0]))
         rf = os.path.join(wd, "recs.ndjson")
